@@ -313,7 +313,7 @@ macro_rules! str_harness {
     ($(#[$m: meta])* fn $name: ident () unwind($u: expr) $body: block) => {
         $crate::harness! {
             $(#[$m])*
-            fn $name() unwind($u) stubs(std::string::String::push_str => crate::common::stub_push_str, std::string::String::push => crate::common::stub_push, log::max_level => crate::common::stub_log_max_level_off, core::slice::memchr::memchr => crate::common::stub_memchr, core::slice::memchr::memrchr => crate::common::stub_memrchr) $body
+            fn $name() unwind($u) stubs(std::string::String::push_str => crate::common::stub_push_str, std::string::String::push => crate::common::stub_push, std::string::String::with_capacity => crate::common::stub_string_with_capacity, std::string::String::reserve => crate::common::stub_string_reserve, log::max_level => crate::common::stub_log_max_level_off, core::slice::memchr::memchr => crate::common::stub_memchr, core::slice::memchr::memrchr => crate::common::stub_memrchr) $body
         }
     };
 }
@@ -421,21 +421,54 @@ pub fn stub_log_max_level_off() -> log::LevelFilter {
     log::LevelFilter::Off
 }
 
-/// Loop-free models of core's byte searches for haystacks of at most 16 bytes (asserted): CBMC
+/// Loop-free models of core's byte searches for haystacks of at most 24 bytes (asserted): CBMC
 /// unwinds every loop to the harness bound, and these searches sit inside two further loops in
 /// the cursor code, so a loop here multiplies the formula by the bound cubed.
 pub fn stub_memchr_16(x: u8, t: &[u8]) -> Option<usize> {
     let n = t.len();
-    assert!(n <= 16, "stub_memchr_16: haystack longer than 16 bytes");
+    assert!(n <= 24, "stub_memchr_16: haystack longer than 24 bytes");
     macro_rules! at { ($($i: expr),*) => { $( if n > $i && t[$i] == x { return Some($i); } )* } }
-    at!(0, 1, 2, 3, 4, 5, 6, 7, 8, 9, 10, 11, 12, 13, 14, 15);
+    at!(0, 1, 2, 3, 4, 5, 6, 7, 8, 9, 10, 11, 12, 13, 14, 15, 16, 17, 18, 19, 20, 21, 22, 23);
     None
 }
 
 pub fn stub_memrchr_16(x: u8, t: &[u8]) -> Option<usize> {
     let n = t.len();
-    assert!(n <= 16, "stub_memrchr_16: haystack longer than 16 bytes");
+    assert!(n <= 24, "stub_memrchr_16: haystack longer than 24 bytes");
     macro_rules! at { ($($i: expr),*) => { $( if n > $i && t[$i] == x { return Some($i); } )* } }
-    at!(15, 14, 13, 12, 11, 10, 9, 8, 7, 6, 5, 4, 3, 2, 1, 0);
+    at!(23, 22, 21, 20, 19, 18, 17, 16, 15, 14, 13, 12, 11, 10, 9, 8, 7, 6, 5, 4, 3, 2, 1, 0);
     None
 }
+
+/// The parser pass only ever *inserts* into `attributed_directives` (read later by `parse_file`,
+/// outside the harness): the insertion is dropped (hashbrown's SIMD group probing is very
+/// expensive to encode and irrelevant to the lines the pass returns).
+#[cfg(kani)]
+pub fn stub_hashset_insert<T: Eq + std::hash::Hash, S: std::hash::BuildHasher, A: std::alloc::Allocator>(
+    _set: &mut std::collections::HashSet<T, S, A>,
+    value: T,
+) -> bool {
+    std::mem::forget(value);
+    true
+}
+#[cfg(not(kani))]
+pub fn stub_hashset_insert<T: Eq + std::hash::Hash, S: std::hash::BuildHasher>(
+    _set: &mut std::collections::HashSet<T, S>,
+    value: T,
+) -> bool {
+    std::mem::forget(value);
+    true
+}
+
+/// `String::with_capacity(n)` is a capacity *hint*: the model hands out a buffer of at least 96
+/// bytes, so that later appends never need the (symbolic-size) reallocation path. Observationally
+/// equivalent for code that does not inspect `capacity()` (pasfmt does not).
+pub fn stub_string_with_capacity(n: usize) -> String {
+    let v: Vec<u8> = Vec::with_capacity(if n > 96 { n } else { 96 });
+    unsafe { String::from_utf8_unchecked(v) }
+}
+
+/// `String::reserve` is a capacity hint; buffers are pre-allocated (see `stub_string_with_capacity`)
+/// and the append models assert that the capacity suffices, so the hint can be dropped. This
+/// removes the (symbolic-size) reallocation path behind `String::extend`.
+pub fn stub_string_reserve(_s: &mut String, _additional: usize) {}
